@@ -172,6 +172,13 @@ void Stats::processMsg(int sockfd) {
       OLOG << "Stats server error: closing file descriptor: "
            << ::strerror_r(errno, err_buf.data(), err_buf.size());
     }
+    // Every way out of this function must report the handler as finished,
+    // or ~Stats waits for it forever. Notify while still holding the mutex:
+    // ~Stats cannot wake up and destroy the condition variable before this
+    // thread has let go of it.
+    std::unique_lock<std::mutex> lock(thread_mutex_);
+    thread_count_--;
+    thread_exited_.notify_one();
   };
   char mode = 'a';
   char byte_buf;
@@ -222,10 +229,6 @@ void Stats::processMsg(int sockfd) {
     OLOG << "Stats server error: writing to socket: "
          << ::strerror_r(errno, err_buf.data(), err_buf.size());
   }
-  std::unique_lock<std::mutex> lock(thread_mutex_);
-  thread_count_--;
-  lock.unlock();
-  thread_exited_.notify_one();
 }
 
 std::unordered_map<std::string, int> Stats::getAll() {
